@@ -398,6 +398,16 @@ def twin(rep, shift):
     if "pdf" in rep:
         sp = rep["pdf"]
         return {"pdf": dict(sp, pages=[dict(p, k=(p["k"] - 1 + shift) % 9 + 1) if "k" in p else dict(p) for p in sp["pages"]])}
+    if "carrier_doc" in rep:       # tokens TOK<slide>x<n>: the slide stays, the text changes
+        def f(x):
+            if isinstance(x, str):
+                return re.sub(r"TOK(\d+)x(\d+)", lambda m: f"TOK{m.group(1)}x{int(m.group(2)) + 100 * shift}", x)
+            if isinstance(x, list):
+                return [f(v) for v in x]
+            if isinstance(x, dict):
+                return {k: f(v) for k, v in x.items()}
+            return x
+        return f(rep)
     return _retoken(rep, lambda n: n + 10 * shift)
 
 
@@ -413,6 +423,9 @@ def single_check(rep):
         return dup_doc_check(rep["dup"])
     if "seq_doc" in rep:
         return c03.seq_doc_check(rep["seq_doc"])
+    if "carrier_doc" in rep:
+        from props import c03_carrier
+        return c03_carrier.check(rep["carrier_doc"])
     return []
 
 
@@ -437,6 +450,9 @@ def gen_twin_doc(rng, kind=None):
                 break
             d = c03.gen_seq_doc(rng)
         return {"seq_doc": d}
+    if kind in ("carrier-pptx", "carrier-odp"):
+        from props import c03_carrier
+        return {"carrier_doc": c03_carrier.gen(rng, kind.split("-")[1])}
     kind = kind or rng.choice(["pdf", "seq", "seq", "mbox", "dup"])
     if kind == "pdf":
         return {"pdf": gen_pdf_spec(rng, wild=False)}
@@ -456,7 +472,7 @@ def e2e_more(rng, n):
         d = gen_dup_doc(rng)
         for key, what in dup_doc_check(d):
             out.append((key, what, {"dup": d}))
-    for kind in ["pdf", "xlsx", "ods", "odp", "mbox", "dup"] + [None] * (n * 2):      # one twin pair of every kind on every run
+    for kind in ["pdf", "xlsx", "ods", "odp", "mbox", "dup", "carrier-pptx", "carrier-odp"] + [None] * (n * 2):      # one twin pair of every kind on every run
         a = gen_twin_doc(rng, kind)
         seq = [a, twin(a, rng.randint(1, 3))]
         for key, what in history_check(seq):
